@@ -271,4 +271,31 @@ def Sys.reserveLost (c : TCfg) (s : Sys) (i ns n : Nat) (k : LostKind) : Sys × 
       | .deadline => (s1, ⟨i, .store, ns, n, false⟩)
       | .timeout => s1.rescuePath c i inst.startMonitor ns n
 
+/-! ### round 5c: the store client's type switch and its breaker's view of errors -/
+
+/-- `getRedis`: the client types that yield a connection (`NodeType`, `ClusterType`); anything else is an error -/
+def typeSupported (t : String) : Bool := t == "node" || t == "cluster"
+
+/-- the errors a script call can end with, as the code distinguishes them -/
+inductive ErrClass where
+  | none          -- no error
+  | redisNil      -- redis.Nil: the token script returned false
+  | canceled      -- context.Canceled
+  | deadline      -- context.DeadlineExceeded
+  | other         -- anything else (refused connection, error reply, i/o timeout, unsupported type …)
+  deriving Repr, DecidableEq
+
+/-- `acceptable`: what the client's circuit breaker does NOT count as a failure -/
+def breakerAccepts : ErrClass → Bool
+  | .none | .redisNil | .canceled => true
+  | .deadline | .other => false
+
+/-- how `reserveN` reads the error of the script call (`TReply` for the non-integer / integer replies) -/
+def ErrClass.treply : ErrClass → Option TReply
+  | .none => Option.none
+  | .redisNil => some .nilReply
+  | .canceled => some .ctxErr
+  | .deadline => some .ctxErr
+  | .other => some .err
+
 end GoZero.C03
